@@ -17,10 +17,14 @@ EXPLAINED = {
 class C02(Property):
     id = "C02"
     lean_module = "RosuModel.Props.C02All"   # imports Props/C02Slider.lean, Props/C02Timing.lean, Props/C02Codec.lean (which import Props/C02.lean), Props/C02File.lean, Props/C02Decoded.lean, Props/C02CodecIeee.lean (all in namespace Rosu.C02) and Props/IeeeFalse.lean (namespace Rosu.IeeeFalse)
-    theorem_modules = ['RosuModel.Props.C02All', 'RosuModel.Props.C02CodecIeee', ('RosuModel.Props.IeeeFalse', 'Rosu.IeeeFalse'), 'RosuModel.Props.C02DecodedIeee']   # files whose top-level theorems are all audited
+    theorem_modules = ['RosuModel.Props.C02All', 'RosuModel.Props.C02CodecIeee', ('RosuModel.Props.IeeeFalse', 'Rosu.IeeeFalse'), 'RosuModel.Props.C02DecodedIeee',
+                       'RosuModel.Props.C02FinalParts', 'RosuModel.Props.C02Final', 'RosuModel.Props.C02FinalDecoded', 'RosuModel.Props.C02FinalMania', 'RosuModel.Props.C02FinalToy',
+                       'RosuModel.Props.C02FinalUnordered', ('RosuModel.Lemmas.RtTimelineDsv', 'Rosu.RtTiming')]   # files whose top-level theorems are all audited
     namespace = "Rosu.C02"
     design_ref = "5.2"
-    required_theorems = ["trim_cons_space", "kvSplit_kvLine", "kv_line_roundtrip", "int_display_parse", "int_display_clean",
+    required_theorems = [
+        "sort_chronological_id", "postProcessBreaks_idempotent", "postProcessBreaks_eq_zip", "finalize_reads_timeline_only", "decoded_finalized", "roundtrip_objects_rep_core",
+        "roundtrip_objects_rep_partial", "roundtrip_objects_rep_scroll_partial", "roundtrip_objects_rep_modes_partial", "scroll_hypothesis_exact", "unordered_not_finalized", "toyMapF_roundtrip_objects","trim_cons_space", "kvSplit_kvLine", "kv_line_roundtrip", "int_display_parse", "int_display_clean",
                          "metadata_block_roundtrip", "colours_block_roundtrip", "colours_block_roundtrip_decoded",
                          "editor_block_roundtrip", "difficulty_block_roundtrip", "general_block_roundtrip", "events_block_roundtrip",
                          "laws_satisfiable", "records_roundtrip", "circle_rt", "spinner_rt", "hold_rt", "samples_bank_info_rt", "samples_rt",
@@ -138,12 +142,29 @@ class C02(Property):
             "format version, general (preserved view), editor, metadata (preserved view), difficulty, events, colours (alpha 255), the map's timing points and at every time its effective "
             "slider velocity (scroll speed in taiko/mania) and kiai flag, and hit objects equal to finalizeObjects ∘ postProcessBreaks ∘ sortByStartTime of exactly those pushed objects with "
             "the map's mode, slider multiplier and breaks and the re-decoded control points. PARTIAL: what is missing for the full property is listed under `roundtrip`",
-        "roundtrip": "NOT a theorem as a whole (only `def roundtrip_statement`, `def hitobjects_roundtrip_statement`, `def roundtrip_rep_statement : Prop`). Still missing after roundtrip_rep_partial: "
-            "(a) the map-level processing of the re-decoded objects against the original map's objects — slider velocity computed from the re-decoded control points (their effective "
-            "timeline is equal by roundtrip_rep_partial, but finalizeObjects is not yet shown to read them only through it), sample defaults from the re-decoded sample points (outside the "
-            "preserved view), forced new combos after breaks, the stable sort of an already chronological list; (b) that a DECODED map satisfies RepMap — false in general: F17 (typed point "
+        "roundtrip_objects_rep_partial / roundtrip_objects_rep_scroll_partial / roundtrip_objects_rep_modes_partial (step (a): map-level processing of the re-decoded objects)":
+            "Props/C02Final*.lean, Lemmas/RtTimelineDsv.lean (sixth session). Unconditional building blocks, every Scalar: sort_chronological_id (the stable sort is the identity on a list that is "
+            "already chronological for the sort's own comparison), postProcessBreaks_eq_zip (break processing reads the objects only through their start times) and postProcessBreaks_idempotent, "
+            "finalizeObjects_view / finalize_reads_timeline_only (the finaliser reads the control points only through timing_point_at(start).beat_len and difficulty_point_at(start).slider_velocity - in all "
+            "four modes; the mode enters through the clamp of get_precision_adjusted_beat_len only), decoded_finalized (every DECODED map whose pushed objects are chronological satisfies `Finalized`: "
+            "chronological, fixed by break processing, every slider velocity is the one the finaliser computes from the map's own control points, forced new combos present, combo offsets only with "
+            "new_combo, node lists = repeats + 2; invariant CoreInv carried through the framing driver for every byte string), decoded_finalized_unordered. Composition, under exactly the hypotheses of "
+            "roundtrip_rep_partial (MapLaws, EpsLaws, GroupLaws, TimelineHyps, RepMap) plus Finalized m: in osu! / catch the re-decoded map has as many hit objects as m and they agree pairwise on the "
+            "preserved view ObjPreserved (start times, kinds, positions, combo flags and offsets, control points, repeat counts, velocities, spinner / hold durations, node counts) - "
+            "roundtrip_objects_rep_partial; in taiko / mania the same under ScrollDrivesSv m (at every slider start the map's slider-velocity multiplier is clamp(scroll speed, 0.1, 10)) and the closed fact "
+            "clamp(1, 0.1, 10) = 1, and scroll_hypothesis_exact shows that hypothesis is EQUIVALENT to the re-decoded difficulty points answering like the map's at slider starts (the encoder writes the "
+            "scroll speed into the velocity field there: difficulty_from_field_file), so nothing weaker will do; roundtrip_objects_rep_modes_partial joins the modes. Non-vacuity: toyMapF (C04.toyMap with "
+            "the velocity the finaliser computes; toyMap itself is NOT Finalized: toyMap_not_finalized), all hypotheses kernel-evaluated, toyMapF_roundtrip_objects. Proved false without its hypothesis: "
+            "decoded_finalized without the chronological order (unordered_not_finalized: spinner at 1000 listed before circles at 100 and 50 - after the sort a plain circle follows the spinner without "
+            "new_combo, and a re-decode would force it: on non-chronological input the round trip does change combo flags, which is why the property quantifies over chronological inputs). "
+            "PARTIAL because RepMap is false of decoded maps in general (F17 F18 F20), EpsLaws / GroupLaws are exact-arithmetic laws, and ScrollDrivesSv is not proved of decoded taiko / mania maps "
+            "(difficulty and effect points are suppressed as redundant independently)",
+        "roundtrip": "NOT a theorem as a whole (only `def roundtrip_statement`, `def hitobjects_roundtrip_statement`, `def roundtrip_rep_statement`, `def roundtrip_objects_statement : Prop`). Step (a) - the map-level "
+            "processing of the re-decoded objects against the original map's objects - is now proved for representable finalized maps (entry above). Still missing: sample defaults from the re-decoded "
+            "sample points (outside the preserved view); (b) that a DECODED map satisfies RepMap — false in general: F17 (typed point "
             "repeated at a segment start), F18 (node sample file names), F20 (computed length above the limit), sample points collected at non-finite computed times; (c) the timing round "
-            "trip for IEEE doubles (EpsLaws / GroupLaws fail there — kernel-checked refutations in Props/IeeeFalse.lean — : the ≤4 ulp slider-velocity drift through 100/(100/sv)). These are evaluated on the implementation by the `rt` oracle "
+            "trip for IEEE doubles (EpsLaws / GroupLaws fail there — kernel-checked refutations in Props/IeeeFalse.lean — : the ≤4 ulp slider-velocity drift through 100/(100/sv)); (d) ScrollDrivesSv for decoded "
+            "taiko / mania maps; (e) the computed curves of the re-decoded sliders (equal control points and lengths give equal curves: C18.compute_ignores_buffers, not yet composed). These are evaluated on the implementation by the `rt` oracle "
             "(preserved view compared field by field, floats by bits, curves included, ≤4 ulp only for slider velocity) and on the model by the three-way `rt` correspondence "
             "(M1, text, M2 all identical between model and code)",
     }
